@@ -63,15 +63,22 @@ type roundSpec struct {
 	fail    int    // index of the failing handler, -1 = none
 	storeOk bool
 	crash   int // -1 = none; otherwise the process dies after this many visible actions of the round
+	panicAt int // -1 = none; otherwise this handler PANICS instead of returning (fail = panicAt as well)
 }
 
-// parseRounds: `head:fail:store[:crash]` separated by ';'   fail = n|<idx>   store = s|x   crash = <n>
+// parseRounds: `head:fail:store[:crash]` separated by ';'   fail = n|<idx>|p<idx>   store = s|x   crash = <n>
+// `p<idx>`: handler idx panics. On code that lets the panic through, that is the death of the process at that point
+// (the lifetime ends: nothing stored, nothing advanced); code that swallows the panic carries on with the round and is
+// observed doing so. A round scripted with a panic is always the last one of its lifetime (also when the handler is not reached).
 func parseRounds(s string) []roundSpec {
 	out := []roundSpec{}
 	for _, it := range items(s, ";") {
 		f := strings.Split(it, ":")
-		r := roundSpec{head: f[0], fail: -1, storeOk: true, crash: -1}
-		if len(f) > 1 && f[1] != "n" {
+		r := roundSpec{head: f[0], fail: -1, storeOk: true, crash: -1, panicAt: -1}
+		if len(f) > 1 && strings.HasPrefix(f[1], "p") {
+			r.panicAt = int(u64(f[1][1:]))
+			r.fail = r.panicAt
+		} else if len(f) > 1 && f[1] != "n" {
 			r.fail = int(u64(f[1]))
 		}
 		if len(f) > 2 && f[2] == "x" {
@@ -104,6 +111,7 @@ type scanEnv struct {
 	once    sync.Once
 	cancel  context.CancelFunc
 	bs      *store.BlockStore
+	confPtr *big.Int // optional: the confirmations big.Int shared with other components (C04 seq)
 	onCall  func(idx int, s, e *big.Int) // optional extra observer (C19)
 }
 
@@ -124,10 +132,30 @@ func (e *scanEnv) die() {
 	runtime.Goexit()
 }
 
+// finish marks the end of the lifetime from outside the listener goroutine's fakes (a panic left the listener).
+func (e *scanEnv) finish() {
+	e.once.Do(func() {
+		if e.cancel != nil {
+			e.cancel()
+		}
+		close(e.done)
+	})
+}
+
+// guarded runs the listener and turns a panic that propagates out of it into the end of the lifetime.
+func (e *scanEnv) guarded(l scanListener, ctx context.Context, start *big.Int) {
+	defer func() {
+		if r := recover(); r != nil {
+			e.finish()
+		}
+	}()
+	l.ListenToEvents(ctx, start)
+}
+
 // nextRound is called by the head query; returns the head spec of the new round.
 func (e *scanEnv) nextRound() string {
 	e.mu.Lock()
-	if e.pos >= 0 && e.pos < len(e.rounds) && e.rounds[e.pos].crash >= 0 {
+	if e.pos >= 0 && e.pos < len(e.rounds) && (e.rounds[e.pos].crash >= 0 || e.rounds[e.pos].panicAt >= 0) {
 		e.die()
 	}
 	e.pos++
@@ -160,10 +188,20 @@ func (e *scanEnv) handle(idx int, s, end *big.Int) error {
 	o := &e.obs[len(e.obs)-1]
 	o.calls = append(o.calls, itoa(idx)+"."+s.String()+"."+end.String())
 	fail := e.rounds[e.pos].fail == idx
+	pan := e.rounds[e.pos].panicAt == idx
 	cb := e.onCall
 	e.mu.Unlock()
 	if cb != nil {
 		cb(idx, new(big.Int).Set(s), new(big.Int).Set(end))
+	}
+	if pan && e.kind == "sub" {
+		// the sygma-core Substrate listener runs its loop in a goroutine of its own: a real panic there cannot be
+		// intercepted by the harness and would kill it, so the death is enacted directly
+		e.mu.Lock()
+		e.die()
+	}
+	if pan {
+		panic("scripted handler panic")
 	}
 	if fail {
 		return errors.New("scripted handler failure")
@@ -234,7 +272,7 @@ func (c evmScanClient) LatestBlock() (*big.Int, error) {
 	if h == "E" || h == "F" {
 		return nil, errors.New("rpc down")
 	}
-	return big.NewInt(i64(h)), nil
+	return bigArg(h), nil
 }
 
 type rangeScanHandler struct {
@@ -269,6 +307,13 @@ type scanListener interface {
 	ListenToEvents(ctx context.Context, startBlock *big.Int)
 }
 
+func (e *scanEnv) confBig() *big.Int {
+	if e.confPtr != nil {
+		return e.confPtr
+	}
+	return big.NewInt(e.conf)
+}
+
 // build constructs the real listener of e.kind wired to the environment.
 func (e *scanEnv) build() scanListener {
 	switch e.kind {
@@ -279,14 +324,14 @@ func (e *scanEnv) build() scanListener {
 			hs = append(hs, btcScanHandler{e, i})
 		}
 		cfg := &btcConfig.BtcConfig{GeneralChainConfig: chain.GeneralChainConfig{Id: &id},
-			BlockRetryInterval: 0, BlockConfirmations: big.NewInt(e.conf)}
+			BlockRetryInterval: 0, BlockConfirmations: e.confBig()}
 		return btcListener.NewBtcListener(btcScanConn{e}, hs, cfg, e)
 	case "evm":
 		hs := []evmListener.EventHandler{}
 		for i := 0; i < e.nh; i++ {
 			hs = append(hs, rangeScanHandler{e, i})
 		}
-		return evmListener.NewEVMListener(evmScanClient{e}, hs, e, noMetrics{}, scanDomain, 0, big.NewInt(e.conf), big.NewInt(e.k))
+		return evmListener.NewEVMListener(evmScanClient{e}, hs, e, noMetrics{}, scanDomain, 0, e.confBig(), big.NewInt(e.k))
 	case "sub":
 		hs := []subListener.EventHandler{}
 		for i := 0; i < e.nh; i++ {
@@ -302,7 +347,7 @@ func (e *scanEnv) runDirect(start *big.Int) {
 	ctx, cancel := context.WithCancel(context.Background())
 	e.cancel = cancel
 	l := e.build()
-	go l.ListenToEvents(ctx, start)
+	go e.guarded(l, ctx, start)
 	e.wait()
 }
 
